@@ -189,3 +189,40 @@ Print Assumptions C10_documented_depth.
 Example C10_nonvacuous : exists r, fst (rset_find_d 300 r [120; 97; 98; 10]%N 2 0%Z) = Ok (0%Z, [(1%Z, 3%Z); ((-1)%Z, (-1)%Z)])
   /\ rset_make [Some [97; 98; 42]%N] 0%Z = Ok (Some r).
 Proof. eexists. split; [|vm_compute; reflexivity]. vm_compute. reflexivity. Qed.
+
+(* ---- the matcher is a function of (pattern set, flags, line): no state survives between calls ------------------------
+   regex.c keeps one writable file-scope variable, the flag re_bad (ReStateDefs.v lists every file-scope variable of
+   regex.c, rset.c, rstr.c).  ReStateDefs.v threads it through rset_make -> regcomp -> the parser and through whole
+   processes: `session ops [] st` runs any interleaving of rset_make (OMake, result stored in the next slot), bare
+   regcomp (OComp) and rset_find on an earlier slot (OFind), starting with the flag at st.
+   For EVERY list of pattern sets and every initial flag, rset_make answers call by call as the pure function: *)
+From NV Require Import ReStateDefs ReStateProps.
+Theorem C10_rset_make_seq_pure : forall sets st,
+  fst (rset_make_seq sets st) = map (fun a => rset_make (fst a) (snd a)) sets.
+Proof. exact rset_make_seq_pure. Qed.
+Print Assumptions C10_rset_make_seq_pure.
+
+(* for EVERY operation list: the observations of the process are those computed from the pure functions *)
+Theorem C10_session_is_pure : forall ops st, fst (session ops [] st) = session_pure ops [].
+Proof. exact session_is_pure. Qed.
+Print Assumptions C10_session_is_pure.
+
+(* in particular every match request answers as rset_find on the pure compilation of the set its slot was made from,
+   whatever was compiled (and rejected) before, in between and after: all theorems above about rset_make / rset_find
+   (soundness, leftmost, priority, group spans, index) apply to every call of a process *)
+Theorem C10_session_find_is_function : forall ops st i k line n flg,
+  nth_error ops i = Some (OFind k line n flg) ->
+  nth_error (fst (session ops [] st)) i =
+  Some (match nth_error (makes (firstn i ops)) k with
+        | Some (res, cflg) => find_obs depth (Some (rset_make res cflg)) line n flg
+        | None => BNone
+        end).
+Proof. exact session_find_is_function. Qed.
+Print Assumptions C10_session_find_is_function.
+
+(* a rejected set, then a valid one, then a match with it, starting from a stale flag *)
+Example C10_session_nonvacuous :
+  exists rs c, fst (session [OMake [Some [97; 123; 50; 44; 49; 125]%N] 0%Z; OMake [Some [97; 43; 98]%N] 0%Z;
+                             OFind 0 [97; 98; 10]%N 2 0%Z; OFind 1 [102; 97; 97; 98; 10]%N 2 0%Z] [] true)
+    = [BMake (Ok None); BMake (Ok (Some rs)); BNone; BFind (Ok (0%Z, [(1%Z, 4%Z); ((-1)%Z, (-1)%Z)]), c)].
+Proof. eexists. eexists. vm_compute. reflexivity. Qed.
